@@ -129,10 +129,10 @@ func dump(r *report.Report) (full []string, keys []string, ice bool) {
 	return full, keys, ice
 }
 
-func compileOnce(exec *incremental.Executor, opener source.Opener, ws source.Workspace) (*report.Report, string) {
+func compileOnce(exec *incremental.Executor, session *ir.Session, opener source.Opener, ws source.Workspace) (*report.Report, string) {
 	ctx, cancel := context.WithTimeout(context.Background(), 60*time.Second)
 	defer cancel()
-	_, r, err := incremental.Run(ctx, exec, queries.Link{Opener: opener, Session: new(ir.Session), Workspace: ws})
+	_, r, err := incremental.Run(ctx, exec, queries.Link{Opener: opener, Session: session, Workspace: ws})
 	if err != nil {
 		return nil, "run-error: " + err.Error()
 	}
@@ -183,9 +183,11 @@ func canonCase(in map[string]any) map[string]any {
 		var full0, keys0 []string
 		diffs := []any{}
 		ice := false
+		reruns := []any{}
 		for k := 0; k < reps; k++ {
 			exec := incremental.New(incremental.WithParallelism(par))
-			r, e := compileOnce(exec, opener, ws)
+			session := new(ir.Session)
+			r, e := compileOnce(exec, session, opener, ws)
 			if e != "" {
 				return map[string]any{"err": e, "rep": k}
 			}
@@ -194,15 +196,32 @@ func canonCase(in map[string]any) map[string]any {
 			ice = ice || i
 			if k == 0 {
 				render0, full0, keys0 = text, full, keys
-				// a second Run on the same executor (everything cached) must report the same
-				r2, e2 := compileOnce(exec, opener, ws)
-				if e2 != "" {
-					return map[string]any{"err": e2, "rep": -1}
-				}
-				text2, _, _ := report.Renderer{ShowRemarks: true}.RenderString(r2)
-				full2, _, _ := dump(r2)
-				if text2 != text || fmt.Sprint(full2) != fmt.Sprint(full) {
-					diffs = append(diffs, map[string]any{"rep": "cached-rerun", "render": text2, "full": full2})
+				// The same queries again on the SAME executor and session (every task is a cache hit,
+				// nothing is evicted), three more times, with other Runs in between: one that shares
+				// tasks with the workspace (the AST of its first file) and one that does not.
+				paths := ws.Paths()
+				for step := 1; step <= 3; step++ {
+					switch step {
+					case 2:
+						ctx, cancel := context.WithTimeout(context.Background(), 60*time.Second)
+						_, _, _ = incremental.Run(ctx, exec, queries.File{Opener: opener, Path: "google/protobuf/any.proto", ReportError: true})
+						cancel()
+					case 3:
+						if len(paths) > 0 {
+							ctx, cancel := context.WithTimeout(context.Background(), 60*time.Second)
+							_, _, _ = incremental.Run(ctx, exec, queries.AST{Opener: opener, Path: paths[0]})
+							cancel()
+						}
+					}
+					r2, e2 := compileOnce(exec, session, opener, ws)
+					if e2 != "" {
+						return map[string]any{"err": e2, "rep": -step}
+					}
+					text2, _, _ := report.Renderer{ShowRemarks: true}.RenderString(r2)
+					full2, _, _ := dump(r2)
+					if text2 != text || fmt.Sprint(full2) != fmt.Sprint(full) {
+						reruns = append(reruns, map[string]any{"run": step + 1, "render": text2, "full": full2})
+					}
 				}
 				continue
 			}
@@ -228,12 +247,109 @@ func canonCase(in map[string]any) map[string]any {
 		res["render"] = render0
 		res["full"] = full0
 		res["diffs"] = diffs
+		res["reruns"] = reruns
 		res["ties_identical"] = tiesSame
 		res["ties_distinct"] = tiesDistinct
 		res["tie_example"] = tieExample
 		res["ice"] = ice
 		res["n"] = len(full0)
 		return res
+	case "synth":
+		return synthCase(in)
 	}
 	return map[string]any{"crash": "unknown mode"}
+}
+
+// ---- synthetic query graphs: every node reports some diagnostics of its own and depends on others ----
+
+type synNode struct {
+	n     int
+	level int
+	deps  []string
+}
+
+type synGraph struct{ nodes map[string]synNode }
+
+// synQ is a query for one node of a graph; comparable (pointer + string).
+type synQ struct {
+	G    *synGraph
+	Name string
+}
+
+func (q synQ) Key() any { return q }
+
+func (q synQ) Execute(t *incremental.Task) (int, error) {
+	nd := q.G.nodes[q.Name]
+	half := nd.n / 2
+	for i := 0; i < half; i++ { // some before the dependencies are resolved, the rest after
+		t.Report().Levelf(report.Level(nd.level), "%s-%d", q.Name, i).Apply(report.InFile(q.Name))
+	}
+	deps := make([]incremental.Query[int], 0, len(nd.deps))
+	for _, d := range nd.deps {
+		deps = append(deps, synQ{q.G, d})
+	}
+	if len(deps) > 0 {
+		if _, err := incremental.Resolve(t, deps...); err != nil {
+			return 0, err
+		}
+	}
+	for i := half; i < nd.n; i++ {
+		t.Report().Levelf(report.Level(nd.level), "%s-%d", q.Name, i).Apply(report.InFile(q.Name))
+	}
+	return nd.n, nil
+}
+
+func synMessages(r *report.Report) []string {
+	out := []string{}
+	for i := range r.Diagnostics {
+		d := &r.Diagnostics[i]
+		out = append(out, fmt.Sprintf("%d|%s|%s", int(d.Level()), d.File(), d.Message()))
+	}
+	return out
+}
+
+func synRun(exec *incremental.Executor, g *synGraph, roots []string) ([]string, string) {
+	qs := make([]incremental.Query[int], 0, len(roots))
+	for _, r := range roots {
+		qs = append(qs, synQ{g, r})
+	}
+	ctx, cancel := context.WithTimeout(context.Background(), 60*time.Second)
+	defer cancel()
+	_, r, err := incremental.Run(ctx, exec, qs...)
+	if err != nil || r == nil {
+		return nil, fmt.Sprint("run-error: ", err)
+	}
+	return synMessages(r), ""
+}
+
+// synthCase: nodes [{name, n, level, deps}], roots, other (roots of an unrelated second graph over the
+// same node table), par. One fresh-executor reference run, then on ONE executor: run, run, other, run.
+func synthCase(in map[string]any) map[string]any {
+	g := &synGraph{nodes: map[string]synNode{}}
+	for _, n := range vhlib.List(in, "nodes") {
+		nm := obj(n)
+		g.nodes[vhlib.Str(nm, "name")] = synNode{n: int(vhlib.Num(nm, "n")), level: int(vhlib.Num(nm, "level")), deps: vhlib.Strs(nm, "deps")}
+	}
+	roots := vhlib.Strs(in, "roots")
+	other := vhlib.Strs(in, "other")
+	par := vhlib.Num(in, "par")
+	ref, e := synRun(incremental.New(incremental.WithParallelism(par)), g, roots)
+	if e != "" {
+		return map[string]any{"err": e}
+	}
+	exec := incremental.New(incremental.WithParallelism(par))
+	runs := []any{}
+	for step := 1; step <= 4; step++ {
+		if step == 3 && len(other) > 0 {
+			if _, e := synRun(exec, g, other); e != "" {
+				return map[string]any{"err": e}
+			}
+		}
+		got, e := synRun(exec, g, roots)
+		if e != "" {
+			return map[string]any{"err": e}
+		}
+		runs = append(runs, got)
+	}
+	return map[string]any{"ref": ref, "runs": runs}
 }
